@@ -48,6 +48,7 @@ def parseIW (ns : Nat) : P IWDump := do
   let gv ← many ns (listOf flt)
   pure { dur, par, gv }
 
+def eqL (a b : List Float) : Bool := a.length == b.length && (a.zip b).all fun (x, y) => x == y || bitsEq x y
 def bitsL (a b : List Float) : Bool := a.length == b.length && (a.zip b).all fun (x, y) => bitsEq x y
 def bitsLL (a b : List (List Float)) : Bool := a.length == b.length && (a.zip b).all fun (x, y) => bitsL x y
 
@@ -138,7 +139,8 @@ def runWavg : P Verdict := do
   let orc := firstSome [
     check (g.length == width) s!"{which} {i}: {g.length} values for a Gaussian of {width}",
     check (closeList 1e-12 (scale * 1e-3) plain g) s!"{which} {i}: not the weighted average: expected {plain} got {g} weights={ws}",
-    check (!vertex || bitsL g (flats.headD [])) s!"{which} {i}: weights (1,0,…) do not reproduce the first voice exactly",
+    -- "exactly" is equality of values: 1·(−0) + 0·y = +0 in IEEE arithmetic, so a negative zero may come back as +0
+    check (!vertex || eqL g (flats.headD [])) s!"{which} {i}: weights (1,0,…) do not reproduce the first voice exactly",
     check (!identical || closeList 1e-12 (scale * 1e-3) (flats.headD []) g) s!"{which} {i}: blending identical voices changed the Gaussian" ]
   let distinct := (flats.eraseDups.length == flats.length)
   pure { corr, oracle := orc, nontriv := nv ≥ 2 && !vertex && (distinct || identical),
